@@ -42,8 +42,10 @@ package dsstate
 //@   ensures res == keyOf(st, c) && inNS(st, res)
 //@   modifies nothing
 
+//@ ghost var serFailN int
 //@ func (st *State) serializePin
 //@   opts trusted
+//@   counts serFailN when err != nil
 //@   ensures err == nil ==> res == enc(*c)
 //@   modifies nothing
 
@@ -55,10 +57,13 @@ package dsstate
 //@ func (st *State) Add
 //@   property C01 C02
 //@   ensures [reaches-the-write-side] err == nil ==> putN == old(putN) + 1
+// (C02: the batch worker applies an accepted pin under the context of a request that may be long gone: the write is
+// refused only when the pin cannot be encoded or the store refuses it - never because of the context it came with)
+//@   ensures [refused-only-by-the-encoder-or-the-store] err != nil ==> serFailN == old(serFailN) + 1 || putN == old(putN) + 1
 //@   ensures err == nil ==> haskey(dstore, keyOf(st, c.Cid)) && dstore[keyOf(st, c.Cid)] == enc(*c)
 //@   ensures err == nil ==> forall k ds.Key :: k != keyOf(st, c.Cid) ==> (haskey(dstore, k) <==> haskey(old(dstore), k)) && dstore[k] == old(dstore)[k]
 //@   ensures err != nil ==> dstore == old(dstore)
-//@   modifies dstore, written, putN
+//@   modifies dstore, written, putN, serFailN
 
 // "unpin deletes it" (an absent CID: unchanged, nil)
 //@ func (st *State) Rm
@@ -138,4 +143,5 @@ package dsstate
 //@   property C01 C14 C08
 //@   at_call codec.Encoder.Encode assert [key-relative-to-the-namespace] raw_v.Key == k.BaseNamespace() && raw_v.Value == r.Value
 //@   loop 1 (range results.Next())
+//@     step [an-entry-that-could-not-be-read-ends-the-dump] r.Error == nil
 //@   modifies nothing
